@@ -1,6 +1,9 @@
 //! Connection state tracking for reconnection logic.
 
+#[cfg(not(feature = "verif-hooks"))]
 use std::sync::atomic::{AtomicU32, AtomicU64, Ordering};
+#[cfg(feature = "verif-hooks")]
+use tower_resilience_core::verif::atomic::{AtomicU32, AtomicU64, Ordering};
 use std::sync::Arc;
 use std::time::{Duration, Instant};
 
